@@ -107,7 +107,8 @@ def grid_pre(ctx, m, g):
 
 
 BOUNDED = {"C18": [{"name": "mask-rules-and-round-trip", "script": "replay/drivers/bnd_masks.py", "args": ["--json"], "timeout": 600},
-                   {"name": "prepare-applies-mask", "script": "replay/drivers/bnd_prepare.py", "args": ["--json", "--masked"], "timeout": 600}]}
+                   {"name": "prepare-applies-mask", "script": "replay/drivers/bnd_prepare.py", "args": ["--json", "--masked"], "timeout": 600},
+                   {"name": "metadata-products", "script": "replay/drivers/bnd_info.py", "args": ["--json"], "timeout": 600}]}
 REPLAY = {f"{M}.{fn}": "bnd_masks.py" for fn in ("mask_specified", "masks_equal", "masks_compatible", "to_compressed", "from_compressed")}
 EXPLAIN = {"C18": "VCs from the real mask_specified / masks_equal / masks_compatible (exhaustive case split on the kind of each mask argument: None, "
                   "Mask.FLEX, Mask.NONE, nomask, boolean array of rank 1-2, with / without grid) and to_compressed / from_compressed (rank 1-3, both orders, "
